@@ -329,12 +329,24 @@ def rule_add_dispatch(chk):
     wstart = ctx.func("_action", "WrittenAction._start")
     wend = ctx.func("_action", "WrittenAction._end")
     mparam = f.pos_params[1]
-    vals = assigned_values(f, "is_action")
-    okd = False
-    for n in iter_own_nodes(f.node):
-        if isinstance(n, ast.Compare) and isinstance(n.ops[0], ast.IsNot) and isinstance(n.left, ast.Call) and isinstance(n.left.func, ast.Attribute) \
-                and n.left.func.attr == "get" and n.left.args and ctx.try_fold(f, n.left.args[0]) == (True, AT):
-            okd = True
+    env_ = X.single_assignments(f)
+
+    def reads_type(x):
+        return isinstance(x, ast.Call) and isinstance(x.func, ast.Attribute) and x.func.attr == "get" and isinstance(x.func.value, ast.Name) and x.func.value.id == mparam \
+            and x.args and ctx.try_fold(f, x.args[0]) == (True, AT) and (len(x.args) == 1 or X.is_const(x.args[1], None))
+
+    def arm(node):
+        """"action" / "message": what the guards of node say about the presence of action_type (None if they say nothing)"""
+        out = set()
+        for t, lab in cfg.guards_of(node):
+            if t.kind == "test":
+                b = X.none_branch(X.inline(f, t.exprs[0], env_), lab, reads_type)
+                if b:
+                    out.add("message" if b == "none" else "action")
+        return out
+    act_nodes = [n for n, c, m in ctx.calls_to(f, ia)]
+    msg_nodes = [n for n, c, m in ctx.calls_to(f, enp)]
+    okd = bool(act_nodes) and bool(msg_nodes) and all(arm(n) == {"action"} for n in act_nodes) and all(arm(n) == {"message"} for n in msg_nodes)
     chk.req(okd, "C09.dispatch", "Task.add:action-vs-message-by-action_type", chk.where(f), good="action iff %s is present" % AT,
             fail="Task.add does not dispatch on the presence of %s" % AT)
     # start vs end
